@@ -87,6 +87,7 @@ C04.vis: parts that are not PER-visible (X.691 10.3.21; a PATTERN constraint sta
     size_set_operations(m, ctx);
     precedence(m, ctx, "C04.prec", true);
     element_constraints(m, ctx);
+    open_ends(m, ctx);
     crate::rules::c09::value_chain(m, ctx, "C04.scope");
     let consts = const_resolver(m);
     let inl = inline_all(m, &["ASN1Value"]);
@@ -298,7 +299,7 @@ C04.vis: parts that are not PER-visible (X.691 10.3.21; a PATTERN constraint sta
     endpoints(m, ctx, &consts);
     serial(m, ctx, &consts);
     render(m, ctx, &consts);
-    outer_marker(m, ctx);
+    outer_marker(m, ctx, "C04.ext");
     size_flag(m, ctx);
     marker_conversions(m, ctx);
     // an INTEGER's bounds are folded as signed (= C06.signed)
@@ -759,18 +760,75 @@ fn render(m: &Model, ctx: &mut Ctx, consts: &dyn Fn(&str) -> Option<Val>) {
     }
 }
 
-/// `(1..5, ...)`: the outer marker makes the bound extensible
-fn outer_marker(m: &Model, ctx: &mut Ctx) {
+/// `(1..5, ...)`, `((1..5), ...)`, `(0..5 | (10..20), ...)`: the marker written after the element set makes the emitted
+/// bound extensible, whatever the element set is — a single element or a set operation. The conversion
+/// TryFrom<&Constraint> for PerVisibleRangeConstraints is evaluated (the element conversion and the fold answer with finite,
+/// non-extensible bounds) on both shapes with and without the marker.
+pub fn outer_marker(m: &Model, ctx: &mut Ctx, rule: &str) {
+    use std::collections::BTreeMap as Map;
     let f = m.fns.iter().find(|f| f.name == "try_from" && f.self_ty.as_deref() == Some("PerVisibleRangeConstraints") && f.trait_.as_deref().map(|t| t.contains("&Constraint")).unwrap_or(false));
     let Some(f) = f else {
-        ctx.fail_closed("C04.ext", "anchor not found: TryFrom<&Constraint> for PerVisibleRangeConstraints");
+        ctx.fail_closed(rule, "anchor not found: TryFrom<&Constraint> for PerVisibleRangeConstraints");
         return;
     };
     ctx.func(&f.key);
-    ctx.oblige("C04.ext", "outer-marker", true);
-    let b = tok(&f.block);
-    if !(b.contains("(&mut per_visible,c.extensible)") && b.contains("per_visible.extensible=true")) {
-        ctx.violate("C04.ext", "outer-marker", &f.file, f.line, "an extension marker after the element set (`(1..5, ...)`) must make the emitted bound extensible");
+    let consts = const_resolver(m);
+    let pvrc = || {
+        let mut n = Map::new();
+        n.insert("min".to_string(), Val::some(Val::int(0)));
+        n.insert("max".to_string(), Val::some(Val::int(20)));
+        n.insert("extensible".to_string(), Val::Bool(false));
+        n.insert("is_size_constraint".to_string(), Val::Bool(false));
+        Val::Ctor("PerVisibleRangeConstraints".into(), vec![], n)
+    };
+    let hook = |_: &Evaluator, name: &str, a: &[Val]| -> Option<Result<Val, String>> {
+        match name {
+            "fold_constraint_set" => Some(Ok(Val::Ctor("Ok".into(), vec![Val::some(Val::Sym("folded".into()))], Map::new()))),
+            ".as_ref" | ".as_mut" | ".clone" if a.len() == 1 => Some(Ok(a[0].clone())),
+            ".try_into" | "PerVisibleRangeConstraints::try_from" | "Self::try_from" | "TryFrom::try_from" => Some(Ok(Val::Ctor("Ok".into(), vec![pvrc()], Map::new()))),
+            _ => None,
+        }
+    };
+    let ev = Evaluator { consts: &consts, call_hook: &hook, inline: None };
+    let p = f.sig.inputs.iter().filter_map(|a| match a { syn::FnArg::Typed(t) => Some(tok(&t.pat)), _ => None }).next().unwrap_or("value".into());
+    let int = |v: i128| Val::Ctor("Integer".into(), vec![Val::int(v)], Map::new());
+    let range = |lo: i128, hi: i128| {
+        let mut fm = Map::new();
+        fm.insert("min".to_string(), Val::some(int(lo)));
+        fm.insert("max".to_string(), Val::some(int(hi)));
+        fm.insert("extensible".to_string(), Val::Bool(false));
+        Val::Ctor("ValueRange".into(), vec![], fm)
+    };
+    let element = |e: Val| Val::Ctor("Element".into(), vec![e], Map::new());
+    let setop = |op: &str| {
+        let mut setf = Map::new();
+        setf.insert("base".to_string(), range(0, 5));
+        setf.insert("operator".to_string(), Val::ctor(op));
+        setf.insert("operant".to_string(), Val::Ctor("Box".into(), vec![element(range(10, 20))], Map::new()));
+        Val::Ctor("SetOperation".into(), vec![Val::Ctor("SetOperation".into(), vec![], setf)], Map::new())
+    };
+    for (what, set) in [("((0..20), ...)", element(range(0, 20))), ("(0..5 | (10..20), ...)", setop("Union")), ("((0..5) ^ (10..20), ...)", setop("Intersection"))] {
+        for marker in [true, false] {
+            let shown = if marker { what.to_string() } else { what.replace(", ...", "") };
+            ctx.oblige(rule, &format!("outer-marker:{}", shown), true);
+            let mut spec = Map::new();
+            spec.insert("set".to_string(), set.clone());
+            spec.insert("extensible".to_string(), Val::Bool(marker));
+            let c = Val::Ctor("Subtype".into(), vec![Val::Ctor("ElementSetSpecs".into(), vec![], spec)], Map::new());
+            let mut env = Env::new();
+            env.insert(p.clone(), c);
+            match ev.eval_fn_body(&f.block, &mut env) {
+                Ok(Val::Ctor(ok, q, _)) if ok == "Ok" => {
+                    let flag = match q.first() { Some(Val::Ctor(_, _, fm)) => fm.get("extensible").cloned(), _ => None };
+                    if flag != Some(Val::Bool(marker)) {
+                        ctx.violate(rule, if marker { "outer-marker" } else { "outer-marker:invented" }, &f.file, f.line,
+                            &format!("INTEGER {} is converted into bounds with extensible = {:?}: an extension marker after the element set makes the emitted bound extensible (and the Rust integer arbitrary-precision) whether the set is one element or a set operation, and only then", shown, flag.map(|v| v.show())));
+                    }
+                }
+                Ok(o) => ctx.fail_closed(rule, &format!("[outer marker {}]: {}", shown, o.show().chars().take(120).collect::<String>())),
+                Err(e) => ctx.fail_closed(rule, &format!("[outer marker {}]: {}", shown, e)),
+            }
+        }
     }
 }
 
@@ -1077,4 +1135,75 @@ fn element_constraints(m: &Model, ctx: &mut Ctx) {
             Err(e) => { ctx.fail_closed(rule, &format!("[{}]: {}", label, e)); break }
         }
     }
+}
+
+
+/// C04.open — X.680 51.4: `LowerEndpoint ::= LowerEndValue | LowerEndValue "<"`, `UpperEndpoint ::= UpperEndValue | "<"
+/// UpperEndValue`. In every production of the constraint lexer that parses `lo .. hi`, the optional terminal behind the lower
+/// end value and the one in front of the upper end value is `<` (the constant is resolved to its character); and the
+/// production that builds the ValueRange must not throw the terminal away: `(0..<5)` permits 0..4, a bound of 0..=5 is not
+/// the effective constraint.
+fn open_ends(m: &Model, ctx: &mut Ctx) {
+    let rule = "C04.open";
+    let consts = const_resolver(m);
+    let char_of = |e: &syn::Expr| -> Option<(String, Option<char>)> {
+        // the X of the first `char(X)` inside an `opt(..)` of the expression
+        struct F { out: Option<syn::Expr> }
+        impl crate::model::DeepCb for F {
+            fn expr(&mut self, e: &syn::Expr) {
+                if self.out.is_some() { return; }
+                if let syn::Expr::Call(c) = e {
+                    if crate::model::callee_name(c).as_deref() == Some("char") && c.args.len() == 1 {
+                        self.out = Some(c.args[0].clone());
+                    }
+                }
+            }
+        }
+        if !tok(e).contains("opt(char(") {
+            return None;
+        }
+        let mut f = F { out: None };
+        crate::model::deep_walk_expr(e, &mut f);
+        let x = f.out?;
+        let name = tok(&x);
+        let ch = match consts(&name) { Some(Val::Char(c)) => Some(c), _ => match &x { syn::Expr::Lit(l) => match &l.lit { syn::Lit::Char(c) => Some(c.value()), _ => None }, _ => None } };
+        Some((name, ch))
+    };
+    let mut sites = 0;
+    for f in m.fns.iter().filter(|f| f.krate == "rasn-compiler" && f.module.starts_with("lexer") && !f.module.contains("tests") && tok(&f.block).contains("range_seperator")) {
+        let mut dropped = false;
+        for c in crate::model::calls_in(&f.block) {
+            let name = crate::model::callee_name(&c).unwrap_or_default();
+            if c.args.len() != 2 {
+                continue;
+            }
+            let (a0, a1) = (tok(&c.args[0]), tok(&c.args[1]));
+            // terminated(<lower end value>, opt(char(X)))
+            let lower = name == "terminated" && a0.contains("MIN") && !a0.contains("range_seperator") && a1.contains("opt(char(") && !a1.contains("range_seperator");
+            // preceded(opt(char(X)), <upper end value>)
+            let upper = name == "preceded" && a1.contains("MAX") && a0.contains("opt(char(") && !a0.contains("range_seperator");
+            if !(lower || upper) {
+                continue;
+            }
+            let which = if lower { "lower" } else { "upper" };
+            let Some((cname, ch)) = char_of(if lower { &c.args[1] } else { &c.args[0] }) else { continue };
+            sites += 1;
+            ctx.oblige(rule, &format!("{}:{}-end-terminal", f.name, which), true);
+            match ch {
+                Some('<') => {}
+                Some(o) => ctx.violate(rule, &format!("{}-end-terminal:{}", which, f.name), &f.file, span_line(&c),
+                    &format!("`{}` accepts `{}` ({}) {} of a value range: X.680 51.4 writes an open end as `<` on either side (`1<..5`, `1..<5`); the legal `({})` is a syntax error and the illegal `({})` is accepted", f.name, o, cname,
+                        if lower { "behind the lower end value" } else { "in front of the upper end value" }, if lower { "1<..5" } else { "1..<5" }, if lower { format!("1{}..5", o) } else { format!("1..{}5", o) })),
+                None => ctx.fail_closed(rule, &format!("[{}]: the terminal `{}` of the {} end point is not a character constant", f.name, cname, which)),
+            }
+            dropped = true;
+        }
+        // the production that builds the range: does the `<` reach the value it builds?
+        if dropped && tok(&f.block).contains("ValueRange{") {
+            ctx.oblige(rule, &format!("{}:exclusive-end-kept", f.name), true);
+            ctx.violate(rule, &format!("exclusive-end-dropped:{}", f.name), &f.file, f.line,
+                &format!("`{}` parses the `<` of an open end point on the discarded side of terminated / preceded: `INTEGER (0..<5)` and `INTEGER (0..5)` build the same ValueRange, and the emitted bound value(\"0..=5\") permits 5, which the constraint excludes", f.name));
+        }
+    }
+    ctx.floor("C04.open/end-point-terminals", sites, 4);
 }
